@@ -152,6 +152,7 @@ def run(ctx):
         _panic(ctx, cfg, prog, mod)
         _arith(ctx, cfg, prog, mod)
         _idxguard(ctx, cfg, prog, mod)
+        _idxcmp(ctx, cfg, prog, mod)
         _callban(ctx, cfg, prog, mod)
         _finite(ctx, cfg, prog, mod)
         _assertgate(ctx, cfg, prog, mod)
@@ -576,6 +577,132 @@ def _arith(ctx, cfg, prog, mod):
             ctx.ob('ARITH', root, cfg, True, '%d site(s) <= %d classified: %s' % (len(lst), ent[0], ent[1]), site=site)
 
 
+# ------------------------------------------------------------------------------------------ IDXCMP
+# A slice / array index that is not a literal is a panic site unless something bounds it.  Accepted evidence, anywhere in
+# the function (not dominance: loop-carried indices are compared at the loop head): the index derives from a named
+# variable that also feeds an ORDER comparison (<, <=, >, >=), or its backward slice contains an iterator position
+# (`next`, `enumerate`, `position`), a `len`, `min`, `clamp`, `rem_euclid` call or a remainder.  An equality test counts only against
+# a bound-like value (`len == D`), not against a literal: an index only ever tested as `prefix == 0`, or not at all, is unbounded.  Table: (count, reason) per function.
+IDXCMP_TABLE = {
+    'core::triangulation::Triangulation::collect_cell_points_for_orientation':
+        (1, 'position from enumerate() over the D + 1 cell vertices, captured by the closure that indexes the D + 1 periodic offsets of the same cell'),
+    'core::triangulation_data_structure::Tds::build_periodic_vertex_uuid_offsets':
+        (1, 'position from enumerate() over the cell vertices, captured by the closure indexing the offsets of the same cell'),
+    'core::triangulation_data_structure::Tds::facet_vertex_identities_in_cell_order':
+        (1, 'position from enumerate() over the cell vertices, captured by the closure indexing the offsets of the same cell'),
+    'core::util::facet_utils::generate_combinations':
+        (1, 'indices[j] < n is the invariant of the combination enumeration (k <= n checked on entry)'),
+    'core::util::hilbert::hilbert_index_from_quantized':
+        (1, 'transposed[D - 1] on a [u32; D] array, D >= 1 checked on entry'),
+    'core::builder::search_closed_2d_selection':
+        (4, 'candidate positions from the permutation (0..m) being sorted and edge ids issued by the edge table built just above (ids < its length)'),
+    'core::builder::search_closed_2d_selection::dfs':
+        (9, 'order[pos] with pos < order.len() tested at the top of the recursion (an == test on a +1 depth parameter); edge ids as above'),
+    'core::collections::spatial_hash_grid::HashGridIndex::visit_neighbor_cells':
+        (2, 'axis is a +1 recursion parameter starting at 0 and the body returns on axis == D before indexing the [_; D] arrays'),
+    'core::delaunay_triangulation::visit_quantized_neighbors':
+        (2, 'axis is a +1 recursion parameter starting at 0 and the body returns on axis == D before indexing the [_; D] arrays'),
+}
+_IDX_ORDER = ('Lt', 'Le', 'Gt', 'Ge')
+_IDX_BOUNDERS = ('::next', 'position', 'enumerate', '::min', 'clamp', 'rem_euclid', '::len', 'checked_rem')
+
+
+def _idx_slice(b, local):
+    seen, work, calls, ops = set(), [local], [], set()
+    while work:
+        l = work.pop()
+        if l in seen:
+            continue
+        seen.add(l)
+        for (_, idx, node) in b.defs.get(l, []):
+            if idx == 'term':
+                calls.append(node.resolved or node.callee or '')
+                for o in node.args:
+                    if o.place is not None:
+                        work.append(o.place.local)
+            else:
+                rv = node.rv
+                if 'op' in rv.raw:
+                    ops.add(str(rv.raw['op']))
+                for o in rv.ops:
+                    if o.place is not None:
+                        work.append(o.place.local)
+                if rv.place is not None:
+                    work.append(rv.place.local)
+    return seen, calls, ops
+
+
+def _idxcmp(ctx, cfg, prog, mod):
+    ctx.rule('IDXCMP', 'a non-literal slice / array index is bounded by an order comparison, an iterator position, len / min / '
+                       'clamp / remainder, or is in the reasoned table')
+    total = 0
+    bad = defaultdict(list)
+    for q, b in sorted(prog.bodies.items()):
+        if '::tests::' in q or not b.file.startswith('src/'):
+            continue
+        sites = []
+        for blk in b.blocks:
+            t = blk.term
+            if t.k == 'assert' and (t.raw.get('m') or '').startswith('BoundsCheck'):
+                mo = t.raw.get('mo', [])
+                if len(mo) < 2 or mo[1][0] == 'k':
+                    continue
+                L = mo[1][1][0]
+                d = b.single_def(L)
+                if d is not None and d[1] != 'term' and d[2].rv.k == 'use' and d[2].rv.ops and d[2].rv.ops[0].kind == 'k':
+                    continue
+                sites.append((L, t.line))
+        if not sites:
+            continue
+        cmp_ops = set()
+        own = set()     # the comparisons the compiler emits for the bounds checks themselves
+        for blk in b.blocks:
+            t = blk.term
+            if t.k == 'assert' and (t.raw.get('m') or '').startswith('BoundsCheck'):
+                c = t.raw.get('c')
+                if c and c[0] != 'k' and not c[1][1]:
+                    own.add(c[1][0])
+        for blk in b.blocks:
+            for s_ in blk.stmts:
+                if s_.kind != 'A' or s_.rv.k != 'bin' or (s_.place.is_local() and s_.place.local in own):
+                    continue
+                op_ = s_.rv.raw.get('op')
+                # an equality test bounds an index only when it is against a bound-like value (the const dimension, a length,
+                # another variable: `if len == D { return Err }` on a +1 counter), not against a literal (`prefix == 0`)
+                eq_bound = op_ in ('Eq', 'Ne') and not any(o.kind == 'k' and o.int_value() is not None for o in s_.rv.ops)
+                if op_ in _IDX_ORDER or eq_bound:
+                    for o in s_.rv.ops:
+                        if o.place is not None:
+                            cmp_ops.add(o.place.local)
+        cmp_named = None
+        for L, line in sites:
+            total += 1
+            sl, calls, ops = _idx_slice(b, L)
+            if (sl - {L}) & cmp_ops or 'Rem' in ops or any(k in c for c in calls for k in _IDX_BOUNDERS):
+                continue
+            if cmp_named is None:
+                cmp_named = set()
+                for c in cmp_ops:
+                    cs, _, _ = _idx_slice(b, c)
+                    cmp_named |= {x for x in cs if x in b.names}
+            if {x for x in sl if x in b.names} & (cmp_named - ({L} if L not in b.names else set())):
+                continue
+            bad[b.root or q].append((line, b.file))
+    ctx.floor('non-literal index sites enumerated', 100, total, cfg)
+    for root, lst in sorted(bad.items()):
+        ent = IDXCMP_TABLE.get(root)
+        site = '%s:%d' % (lst[0][1], lst[0][0])
+        if ent is None or len(lst) > ent[0]:
+            ctx.ob('IDXCMP', root, cfg, False,
+                   '%d index expression(s) at line(s) %s whose value is never order-compared, and does not come from an iterator '
+                   'position / len / min / clamp / remainder%s: out-of-range values panic' % (
+                       len(lst), [l for l, _ in lst][:5], '' if ent is None else ' (table classifies %d)' % ent[0]), site=site)
+        else:
+            ctx.ob('IDXCMP', root, cfg, True, '%d site(s) <= %d classified: %s' % (len(lst), ent[0], ent[1]), site=site)
+    ctx.ob('IDXCMP', 'summary', cfg, True, '%d non-literal index sites, %d functions with sites outside the structural evidence' % (
+        total, len(bad)))
+
+
 # ------------------------------------------------------------------------------------------ IDXGUARD
 HANDLE_ACCESSORS = ('FacetHandle::facet_index', 'RidgeHandle::', 'TriangleHandle::', 'EdgeKey::')
 
@@ -851,11 +978,20 @@ def _rangeguard(ctx, cfg, prog, mod):
                     guard_blocks.add(blk.idx)
             reach = flow.reach_edges(b, [0], avoid_blocks=guard_blocks) if 0 not in guard_blocks else set()
             guarded = bb not in reach
-            ok = bound_ok or guarded
+            # (c) the bound is an iterator position (`for (idx, x) in v.iter().enumerate() { .. &v[..idx] .. }`): positions
+            # handed out by an iterator over a slice never exceed its length
+            pos_ok = False
+            if not (bound_ok or guarded) and t.args[1].place is not None:
+                leaves = valueflow.sources(b, al, t.args[1].place.local)
+                names_ = [(x[1].callee or x[1].resolved or '') for x in leaves if x[0] == 'call']
+                pos_ok = any('Enumerate' in n_ or n_.endswith('::position') or n_.endswith('::enumerate') for n_ in names_) and \
+                    not any(n_.rsplit('::', 1)[-1] in ('add', 'checked_add', 'saturating_add', 'wrapping_add', 'mul') for n_ in names_)
+            ok = bound_ok or guarded or pos_ok
             ctx.ob('RANGEGUARD', '%s|%s' % (b.root or q, ity.split('<')[0].rsplit('::', 1)[-1]), cfg, ok,
                    'range index (%s) %s' % (ity.split('<')[0].rsplit('::', 1)[-1],
                        'takes its bound from len() of the collection' if bound_ok else
                        'is dominated by a branch on len() of the same collection' if guarded else
+                       'takes its bound from an iterator position' if pos_ok else
                        'is reachable without any test on the length of the collection it slices: a shorter list (e.g. after '
                        'de-duplication) panics with "range end index out of range"'), site='%s:%d' % (b.file, t.line))
     ctx.floor('range-indexing sites', 1, n, cfg)
